@@ -460,12 +460,12 @@ RULE_ADDENDA = {
     "C02": "TestSlowReaderWithinTheSharedBuffer: the stalled connection's target is a unix-domain socket that reads nothing (about 200 KiB of kernel buffering) and is sent 0.7-3 MiB in 1-40 writes; meanwhile an established and a freshly opened connection on the same session must complete 2000-byte echo round trips within the bound; after the release everything arrives at the slow target. TestConcurrentOpensAfterCarrierLoss: carrier lost (reset / orderly end / silence then reset while opens hang), then 2-5 opens at the same instant; all must echo, at most one new physical connection. refusedOpen asks either for a channel the server does not have or for one whose target refuses connections (the server must survive a failed dial and keep serving the others). pendingOpen: a request for a channel whose target neither accepts nor refuses the connection attempt (a listening socket with a full backlog) stays pending on the server while all other actions must keep making progress.",
     "C08": "TestBatchesAndConcurrency: the encodings of a batch of 2-12 inputs are kept and decoded only after the whole batch was encoded; or the batch's round trips run in as many goroutines at the same time (150 iterations each).",
     "C10": "TestDomainLengthSweep: tunnel domains of every length 3..150 (thorough ..200) x record types x codecs selectable over that domain x packet payloads {0,1,30,100,139,140,141,170,200,256,300,400,600,1000}. The payload walk sweeps 48 contents at both sides of every boundary it crosses.",
-    "C18": "Every documented upstream is connected a second time and must classify as on the first attempt. YAML texts are parsed three times (majority taken; a disagreement is the known finding yaml-decode-nondeterministic), and one certificate-bearing server configuration is parsed 30000 (thorough 150000) times, every parse compared with the first. JSON-object listener specs must be rejected or give a real listener. Near-miss strings are padded with blanks, tabs and line ends and include the command-line form of channels. TestUpstreamSpellingsMeanTheSameTransport: ws:// vs http:// and wss:// vs https:// upstreams against one real server with a certificate must give the same session (established, reported security, payload invisible on the carrier).",
+    "C18": "Every documented upstream is connected a second time and must classify as on the first attempt. YAML texts are parsed three times (majority taken; a disagreement is the known finding yaml-decode-nondeterministic), and one certificate-bearing server configuration is parsed 30000 (thorough 150000) times, every parse compared with the first. JSON-object listener specs must be rejected or give a real listener. Near-miss strings are padded with blanks, tabs and line ends and include the command-line form of channels. TestUpstreamSpellingsMeanTheSameTransport: ws:// vs http:// and wss:// vs https:// upstreams against one real server with a certificate must give the same session (established, reported security, payload invisible on the carrier). Listener specs with a forward address are enumerated for tcp, unix, stdin and stdio listeners; the constructed listener must carry that forward address.",
     "C19": "Action endOfInput: the resource under a drawn node reports end-of-stream to reads from then on (not a close). The connection below a StreamWrappedConnection is either the stream's own resource (then closed exactly once overall) or a lent one that must never be closed.",
-    "C13": "openMany: 2-5 version handshakes issued at the same instant (also as the first step of a history); identifiers must be distinct, must be the ones the server accepted, and every session must work. The address pool includes addresses on the owner's host with another port. Half of the sessions negotiate their own upstream / downstream codecs (Base32/64/64u/128, Raw) and fragment sizes (120/200/400) after the version handshake, the way the client's own handshake does; refusals are recognised under whichever codec words them.",
+    "C13": "openMany: 2-5 version handshakes issued at the same instant (also as the first step of a history); identifiers must be distinct, must be the ones the server accepted, and every session must work. The address pool includes addresses on the owner's host with another port. Half of the sessions negotiate their own upstream / downstream codecs (Base32/64/64u/128, Raw) and fragment sizes (120/200/400) after the version handshake, the way the client's own handshake does; refusals are recognised under whichever codec words them. A spoofed message must also leave the victim session's last-contact time unchanged (it drives the expiry of an abandoned session).",
     "C14": "Histories also carry refused requests (none / unknown channel / channel whose target refuses connections; one after every working connection) and 0-6 idle logical connections open when the session ends, whose sockets and goroutines must be released and whose applications must see end-of-stream. Ending outage-and-recovery: the session is cut while the server is unreachable, two attempts fail, then 20 further connections must work and the footprint must return to idle. A fifth of the histories use a directly forwarding listener. The garbage collector is off while connections are counted; anonymous pipes are not counted. Ending cut-fin-inside-frame: the carrier ends with FIN after 1-7 bytes of a frame header or a header with a short payload; enumerated over tcp and http plain carriers with idle connections open. TestManySessions: per carrier 30 client sessions on one server; the footprint after 30 may not exceed the one after 5. TestSessionsThatNeverComeUp: upstream silent at once / after its first answer / inside StartTLS, negotiation limit 1 s, six local connections must each be closed and leave nothing. TestManySessions includes UDP (thorough: after the keep-alive time; quick: datagram sockets only). A third of the histories give the client a fail-over list with a second, equally reachable entry for the same server. After an ending that leaves no session (all but server-shutdown and outage-and-recovery) the footprint must also be back at what the two ends had before their first session. TestTargetThatAnswersLate: six connections to a channel whose target answers the connection attempt only after 12 s (applications give up after 14 s); afterwards the footprint must be back at idle. Second unit (own process, every tier): TestSilentCarrier - a socket and a websocket session through relays that stop passing anything while all connections stay open; 85 s later the footprint must be back at that before the sessions (plus the relays' own two sockets and copy loops each) and the process idle.",
     "C15": "Second unit (in-package, simulated wire): 6 (thorough 30) listeners, each with 1-3 peers that fall silent after the version handshake / session set-up / a transfer; ConnectionTimeout lowered to 3 s; observed for 72 s (135 s) across the listener's real once-a-minute sweep; a well-behaved client arrives on every listener every few seconds and must complete handshake + 200-byte transfer within 10 s. A DNS peer either keeps polling and is silent on the tunnelled stream only, or stops sending DNS queries altogether once what it sent is acknowledged, leaving the server's answer unfetched; the 5 DNS stall points x {polling, not polling} are enumerated in both tiers in addition to the random draws. Stall kind malformed-request: one of 14 complete but malformed requests (one blank, no blank, blank only, bare upgrade tokens, empty version lists ...), optionally after a good announce, then silence; drawn and enumerated on tcp and udp. Stall point inside-starttls-hello with 1-8 stalled peers on endpoints that offer StartTLS, drawn and enumerated. TestMalformedRequests also runs over the websocket endpoint; every pair is shut down with a bound, so a shutdown that blocks is a failure, not a hang.",
-    "C16": "After a loss the further local connections are made one at a time or 2-5 at the same instant; a deviation is re-run once and counts only when reproduced. The silent enumeration also has scripted upstreams that answer the first request (and, offering StartTLS, the upgrade with 101) and then never speak again. Upstream kinds include ws (websocket under its ws:// spelling); with security required [kind/works-but-insecure, tcp/works] and [kind/works-but-insecure] are enumerated for tcp, http, ws, udp. TestFailoverWithVerification: certificate verification on, list entries spelled 127.0.0.1 / localhost, each working server with a certificate for exactly its spelling, first entry refused or answering an error status; and a reconnect after loss. Direct connections over a reachable forward address end orderly, by application reset or by target reset; no upstream may be contacted. TestUpstreamObjectsConnectAgain: every upstream kind (also UDP with a shared secret) connected three times against the unchanged server. TestDNSUpstreamWhoseResolversFail: a DNS upstream naming 1-3 resolvers that answer SERVFAIL / REFUSED at once, followed by a working TCP upstream; echo within 60 s. A third of the policy cases hold one logical connection open, make a request for a channel no server offers (refused), and require the held connection and the single physical session to survive. Forward addresses are TCP addresses or unix-domain sockets given with an absolute path.",
+    "C16": "After a loss the further local connections are made one at a time or 2-5 at the same instant; a deviation is re-run once and counts only when reproduced. The silent enumeration also has scripted upstreams that answer the first request (and, offering StartTLS, the upgrade with 101) and then never speak again. Upstream kinds include ws (websocket under its ws:// spelling); with security required [kind/works-but-insecure, tcp/works] and [kind/works-but-insecure] are enumerated for tcp, http, ws, udp. TestFailoverWithVerification: certificate verification on, list entries spelled 127.0.0.1 / localhost, each working server with a certificate for exactly its spelling, first entry refused or answering an error status; and a reconnect after loss. Direct connections over a reachable forward address end orderly, by application reset or by target reset; no upstream may be contacted. TestUpstreamObjectsConnectAgain: every upstream kind (also UDP with a shared secret) connected three times against the unchanged server. TestDNSUpstreamWhoseResolversFail: a DNS upstream naming 1-3 resolvers that answer SERVFAIL / REFUSED at once, followed by a working TCP upstream; echo within 60 s. A third of the policy cases hold one logical connection open, make a request for a channel no server offers (refused), and require the held connection and the single physical session to survive. Forward addresses are TCP addresses or unix-domain sockets given with an absolute path. TestListenerSpecsWithForwardGoDirect: listener specs name~listen~forward for a tcp, a stdin and a stdio listener are parsed by the real parser and started with one working upstream; the local connection must be answered by the forward target and the upstream's target must see nothing.",
     "C17": "Further dimensions: the close may be a shutdown of the writing direction only (the closer then must see its own connection end within the same bound); a request for an unknown channel may be refused between the first and second write. TestWriteThenCloseHammer: 40000 (thorough 400000) short write-then-close connections at GOMAXPROCS 2, every one must deliver its bytes before end-of-stream. TestLongLivedConnection: with the negotiation time limit lowered to 2 s, per carrier a connection is used, idles 2.6 s, is used again and closed by either side. The hammer also runs in the application-to-target direction, three applications at a time. The SOCKETACE_PIPE_DEBUG copy loops are a drawn configuration. The hammer has a third part: eight applications at a time, all processors, target on a unix-domain socket.",
 }
 for _k, _add in RULE_ADDENDA.items():
